@@ -1,12 +1,17 @@
 package main
 
 import (
+	"io"
+	"os"
 	"strings"
 
 	"cedarverif/harness/internal/orc"
 )
 
 func runOracle(c *Ctx, engine string, lines []string) ([]string, error) {
+	if d := os.Getenv("VERIF_DUMP"); d != "" {
+		_ = os.WriteFile(d, []byte(strings.Join(lines, "\n")+"\n"), 0o644)
+	}
 	return orc.Run(c.Oracle, engine, lines)
 }
 
@@ -14,6 +19,9 @@ func runOracle(c *Ctx, engine string, lines []string) ([]string, error) {
 func errClass(err error) string {
 	if err == nil {
 		return ""
+	}
+	if err == io.EOF {
+		return "eom" // bare io.EOF: end of the current message
 	}
 	m := err.Error()
 	has := func(s string) bool { return strings.Contains(m, s) }
@@ -38,6 +46,8 @@ func errClass(err error) string {
 		return "state"
 	case has("not fully consumed"):
 		return "notConsumed"
+	case has("invalid string length"), has("invalid length"), has("negative"):
+		return "malformed"
 	case has("exceeds maximum allowed size"):
 		return "sizeExceeded"
 	case has("ExportCryptoState"):
